@@ -167,13 +167,43 @@ static void m1_late (void *a) {
 	}
 }
 
+/* MODE 2: plain lockers queue in front of a conditional waiter; the one that makes the condition true releases with
+   nsync_mu_unlock, the others change nothing and release with nsync_mu_unlock_without_wakeup: the waiter must still return. */
+static void m2_waiter (void *a) {
+	int k, n = (int) vrt_rand (25);
+	nsync_mu_lock (&mu); wsection_begin ();
+	for (k = 0; k < n; k++) vrt_point ("w-holds");       /* give the lockers time to queue up behind us */
+	wsection_end ();
+	nsync_mu_wait (&mu, nonzero, &b0, NULL);
+	wsection_begin ();
+	if (x[0] == 0) vrt_fail ("C06", "nsync_mu_wait returned with a false condition");
+	wsection_end (); nsync_mu_unlock (&mu);
+	vrt_count ("ret_true");
+}
+static void m2_locker (void *a) {
+	int sets = (int) (long) a;
+	nsync_mu_lock (&mu); wsection_begin ();
+	if (sets) x[0] = 1;
+	wsection_end ();
+	if (sets) nsync_mu_unlock (&mu); else nsync_mu_unlock_without_wakeup (&mu);
+}
+
 int main (void) {
 	int i, nw = 2 + (int) vrt_rand (3);
 	static char nm[12][8];
 	vrt_register (&mu, sizeof (mu), "mu0");
 	vrt_set_snapshot (snapshot);
 	cancel = nsync_note_new (NULL, nsync_time_no_deadline);
-	if (vrt_opt ("MODE", vrt_rand (3) == 0)) {
+	if (vrt_opt ("MODE", 0) == 2) {
+		vrt_thread ("w", m2_waiter, NULL);
+		vrt_thread ("a", m2_locker, (void *) 1L);
+		vrt_thread ("b", m2_locker, (void *) 0L);
+		if (vrt_rand (2)) vrt_thread ("c", m2_locker, (void *) 0L);
+		vrt_run ();
+		printf ("VRT-END ok\n");
+		return 0;
+	}
+	if (vrt_opt ("MODE", vrt_rand (3) == 0) == 1) {
 		vrt_thread ("tr", m1_timed_reader, NULL);
 		if (vrt_rand (2)) vrt_thread ("tr2", m1_timed_reader, NULL);
 		vrt_thread ("h", m1_holder, NULL);
